@@ -708,9 +708,10 @@ func canTstr(v any) bool {
 }
 
 // canBstr reports whether v can be used as a CBOR bstr type.
+// A nil byte slice is not a bstr: it is encoded as the CBOR null value.
 func canBstr(v any) bool {
-	_, ok := v.([]byte)
-	return ok
+	b, ok := v.([]byte)
+	return ok && b != nil
 }
 
 // normalizeLabel tries to cast label into a int64 or a string.
